@@ -28,6 +28,9 @@ Fixpoint store_seq (m : fbuf) (off : N) (k : N) (bytes : list N) : fbuf * bool :
       end
   end.
 
+(** element [j] of a byte sequence (0 beyond its end) *)
+Definition byte_at (bytes : list N) (j : N) : N := nth (N.to_nat j) bytes 0.
+
 (** [for off := start; off < bound; off += step { fb[off], fb[off+1].. = bytes }]   state = (memory, off)
     (text mode: step 1, one cell; framebuffer: step = bytes per pixel, the packed colour) *)
 Definition fill_px_step (bound step : N) (bytes : list N) (s : fbuf * N) : sres (fbuf * N) :=
